@@ -368,3 +368,78 @@ fn c09_ports_per_message_fit_frame_limit() {
     kani::cover!(n >= 2 && 6 + 8 * (n + 1) > limit, "frame limit is the binding bound");
     kani::cover!(n >= 1 && 4 * (n + 1) > credits as u64, "credits are the binding bound");
 }
+
+// ---------------------------------------------------------------------------
+// C08: decoding arbitrary (hostile) bytes
+
+/// Decodes `N` arbitrary bytes with the real decoder.
+fn decode_arbitrary<const N: usize>() {
+    let bytes: [u8; N] = kani::any();
+    let res = hm::msg_read(&bytes[..]);
+    // never panics (Kani's panic / overflow / bounds checks are on); what is accepted is a well-formed prefix:
+    // the first byte is a known message code
+    if let Ok(msg) = &res {
+        assert!(N >= 1 && bytes[0] >= 1 && bytes[0] <= 15);
+        kani::cover!(true, "some byte strings decode");
+    } else {
+        kani::cover!(true, "some byte strings are rejected");
+    }
+    std::mem::forget(res);
+}
+
+macro_rules! decode_arbitrary_harness {
+    ($($name:ident, $n:expr;)*) => {$(
+        /// @prop C08 C09
+        /// @tier quick
+        /// @fn chmux::msg::MultiplexMsg::read
+        /// @fn chmux::msg::ExchangedCfg::read
+        /// @bounds a frame of concrete length (family: 0, 1, 5, 6, 10, 14 bytes) whose bytes are all symbolic, including the message code
+        /// @outside longer frames (PortData frames with more than 2 ports, Hello frames are 22+ bytes)
+        /// decoding never panics, overflows or reads out of bounds; it returns a message only if the frame starts with a known message code, otherwise an error
+        #[kani::proof]
+        #[kani::unwind(9)]
+        #[kani::stub(alloc::fmt::format, empty_format)]
+        fn $name() {
+            decode_arbitrary::<$n>();
+        }
+    )*};
+}
+
+decode_arbitrary_harness! {
+    c08_decode_arbitrary_0, 0;
+    c08_decode_arbitrary_1, 1;
+    c08_decode_arbitrary_5, 5;
+    c08_decode_arbitrary_6, 6;
+    c08_decode_arbitrary_10, 10;
+    c08_decode_arbitrary_14, 14;
+}
+
+/// @prop C08 C09 C02
+/// @tier quick
+/// @fn chmux::msg::ExchangedCfg::read
+/// @bounds 18 arbitrary bytes (the size of an exchanged configuration), all symbolic
+/// a configuration announced by the peer is accepted iff chunk size >= 4, receive buffer >= 4 and connect queue >= 1 (the limits every later credit computation relies on), the accepted values are exactly the little-endian fields, and decoding never panics
+#[kani::proof]
+#[kani::unwind(4)]
+#[kani::stub(alloc::fmt::format, empty_format)]
+fn c08_decode_arbitrary_cfg() {
+    let b: [u8; 18] = kani::any();
+    let res = hm::cfg_read(&b[..]);
+    let millis = u64::from_le_bytes([b[0], b[1], b[2], b[3], b[4], b[5], b[6], b[7]]);
+    let chunk = u32::from_le_bytes([b[8], b[9], b[10], b[11]]);
+    let buffer = u32::from_le_bytes([b[12], b[13], b[14], b[15]]);
+    let queue = u16::from_le_bytes([b[16], b[17]]);
+    match &res {
+        Ok(cfg) => {
+            assert!(chunk >= 4 && buffer >= 4 && queue >= 1);
+            assert!(cfg.chunk_size == chunk && cfg.port_receive_buffer == buffer && cfg.connect_queue == queue);
+            assert!(cfg.connection_timeout.is_none() == (millis == 0));
+            kani::cover!(true, "valid configuration accepted");
+        }
+        Err(_) => {
+            assert!(chunk < 4 || buffer < 4 || queue < 1);
+            kani::cover!(chunk < 4, "too small chunk size rejected");
+        }
+    }
+    std::mem::forget(res);
+}
